@@ -23,6 +23,7 @@ class CurveInfo:
         self.L = (e["fpp"] + e["lvl"] + 7) // 8
         self.rndsz = e["rndsz"]
         self.ctmap = e["ctmap"] == 1
+        self.pairf = e.get("pairf", 0)
         self.h = le(e["h"]["d"])
         self.n = le(e["n"]["d"])
         if self.ctmap:
